@@ -295,8 +295,8 @@ def r_order(model, rep):
                 elif dict(s.value[3]).get("reverse") not in (None, ("const", False)):
                     pass
         rep.ob("R-ORDER", "images.Images.serialize:cell-list", ok, site=cx.site(e.ev.lineno), msg=msg)
-    if n_sites < 9:
-        raise AnalysisError("vacuity guard: R-ORDER examined %d order-sensitive sites (floor 9)" % n_sites)
+    if n_sites < 6:
+        raise AnalysisError("vacuity guard: R-ORDER examined %d order-sensitive sites (floor 6)" % n_sites)
     rep.count("order_sensitive_sites", n_sites)
     # loops whose body emits keyed entries are order-insensitive *because* the containers are sorted on output: R-JSONCFG/R-INICFG
 
